@@ -160,6 +160,17 @@ def run(ctx):
             for c_ in p_.conds:
                 ks |= _consts(c_)
             ks |= _consts(p_.env.local(0))
+        # `match id { 0 => None, .. }` tests the value in a switch rather than in a comparison
+        from ..prov import derive as _dvk, index_of as _ixk
+
+        ixk = _ixk(b)
+        for blk_ in b.blocks:
+            tk = blk_["t"]
+            if tk["k"] == "switch" and not blk_["cleanup"]:
+                rk = ixk.resolve(tk["a"])
+                is_discr = rk[0] == "rv" and rk[1].get("k") == "discr"
+                if not is_discr and _dvk(ixk, tk["a"]).params and str((tk["a"].get("c") or tk["a"].get("m") or {}).get("ty", "")) != "bool":
+                    ks |= {int(v_) for v_, _tg in tk["arms"]}
         return b, ks
 
     for fn_, what_ in (("gearsets::convert_id_opt", "reader: id 0 -> None"), ("gearsets::convert_opt_id", "writer: None -> 0")):
